@@ -233,13 +233,13 @@ pub fn campaigns(ctx: &Ctx) -> Stats {
         Some(GradCase { op: OpKind::Softmax, leaves: vec![LeafSpec { dims: d.to_vec(), vals, tracked: true }], seed: Some(distinct_seed(n)), uses: 1 })
     }));
     // random values / sizes / parameters
-    let (max_rank, max_size, total) = t.pick((4usize, 5usize, 60000u64), (5, 7, 1200000));
+    let (max_rank, max_size, total) = t.pick((4usize, 7usize, 60000u64), (5, 10, 1200000));
     let strat = move || {
         (0..17usize, prop::collection::vec(1..=max_size, 1..=max_rank), any::<[u8; 4]>(), -3.0f64..4.0, any::<u64>(), any::<u8>())
             .prop_map(|(opi, dims, p, e, vseed, tr)| RandRecipe { opi, dims, p, e: (e * 64.0).round() / 64.0, vseed, tr })
             .boxed()
     };
-    st.merge(ctx.run_prop("random-single-operations", total, strat, |r| if numel(&r.dims) <= 600 { random_case(r) } else { None }));
+    st.merge(ctx.run_prop("random-single-operations", total, strat, |r| if numel(&r.dims) <= 1500 { random_case(r) } else { None }));
     st
 }
 
